@@ -51,6 +51,13 @@ func deriveCuts(seed, n int, mode string, lineEnds []int) []int {
 // replies (except across STARTTLS, where pipelining is forbidden) and returns
 // the complete plaintext output of the server.
 func runPipelined(c hCase, ls hRun) ([]byte, string) {
+	// "<discipline>+eof": the client half-closes together with its last
+	// segment, and the server's connection reports the end of the stream
+	// with the last octets (n > 0, io.EOF). Complete commands are commands
+	// however the end of the connection behind them is reported.
+	finalEOF := strings.HasSuffix(c.Discipline, "+eof")
+	c.Discipline = strings.TrimSuffix(c.Discipline, "+eof")
+	c.Cfg.EOFWithData = finalEOF
 	r := harness.NewRig(c.Cfg, c.Script)
 	w, _ := r.Dial()
 	if st := w.WaitQuiet(); st != harness.QIdle {
@@ -59,11 +66,16 @@ func runPipelined(c hCase, ls hRun) ([]byte, string) {
 	}
 	var batch []byte
 	var lineEnds []int
+	last := false
 	flush := func() {
 		if len(batch) == 0 {
 			return
 		}
-		w.SendCuts(batch, deriveCuts(c.CutSeed+len(batch), len(batch), c.Discipline, lineEnds))
+		if last && finalEOF {
+			w.SendCutsFinal(batch, deriveCuts(c.CutSeed+len(batch), len(batch), c.Discipline, lineEnds))
+		} else {
+			w.SendCuts(batch, deriveCuts(c.CutSeed+len(batch), len(batch), c.Discipline, lineEnds))
+		}
 		batch, lineEnds = nil, nil
 	}
 	settle := func() string {
@@ -118,6 +130,7 @@ func runPipelined(c hCase, ls hRun) ([]byte, string) {
 			}
 		}
 	}
+	last = true
 	flush()
 	// parked deliveries are released whenever the command loop waits for them
 	for i := 0; i < 64; i++ {
@@ -408,7 +421,7 @@ func init() {
 }
 
 func genDiscipline(t *rapid.T) string {
-	ds := []string{"one", "one", "random", "random", "lines"}
+	ds := []string{"one", "one", "random", "random", "lines", "one+eof", "random+eof", "lines+eof"}
 	if thorough() {
 		ds = append(ds, "octet")
 	}
@@ -417,7 +430,7 @@ func genDiscipline(t *rapid.T) string {
 
 func TestC04(t *testing.T) {
 	registerAll()
-	st.Rule = "cases = C03 histories x sending discipline (lock-step; the same octets in one segment / random segmentation / one segment per line / one octet per segment) and gated chunked-transfer schedules with per-message verdicts; oracles: strict RFC 5321 reply grammar + RFC 2034 enhanced-code rule on every reply, reply count per command (monitor), byte-identical output lock-step vs pipelined, final reply == that message's own verdict; non-trivial = pipelined/segmented history containing a delivered message, or a schedule with an aborted gated delivery; distinct = hash of the whole case"
+	st.Rule = "cases = C03 histories x sending discipline (lock-step; the same octets in one segment / random segmentation / one segment per line / one octet per segment; optionally the end of the stream reported together with the last octets) and gated chunked-transfer schedules with per-message verdicts; oracles: strict RFC 5321 reply grammar + RFC 2034 enhanced-code rule on every reply, reply count per command (monitor), byte-identical output lock-step vs pipelined, final reply == that message's own verdict; non-trivial = pipelined/segmented history containing a delivered message, or a schedule with an aborted gated delivery; distinct = hash of the whole case"
 	if !regress(t, "C04") {
 		return
 	}
